@@ -84,7 +84,7 @@ def run(ctx):
     for po in pouts:
         if po["variant"] == "passivation-entry-fires-after-stop":
             n_post = sum(1 for e in po["events"] if e["who"] == "C" and e["kind"] == "postB")
-            fp = (n_post <= 1) and "did-not-fire" not in po.get("note", "")
+            fp = not (n_post >= 2)      # the unrepaired behaviour has to be SEEN to be assumed
     if (not fp) and len(mouts) == len(scs):
         scs = U.gen_scenarios(ctx, False)
         rc, out = write_and_run(scs, "^TestVerifC06Model$")
